@@ -351,7 +351,11 @@ class PPO(RLAlgorithm):
         action = action.cpu().data.numpy()
         if not self.training and isinstance(self.action_space, spaces.Box):
             if self.actor.squash_output:
-                action = self.actor.scale_action(action)
+                action = (
+                    self.actor.scale_action(torch.as_tensor(action, device=self.device))
+                    .cpu()
+                    .numpy()
+                )
             else:
                 action = np.clip(action, self.action_space.low, self.action_space.high)
 
